@@ -114,9 +114,24 @@ def _alphabets(e: ast.AST) -> Set[str]:
     return {n.attr for n in ast.walk(e) if isinstance(n, ast.Attribute) and n.attr.startswith("ascii_")}
 
 
+class _Seq:
+    """abstract value of a subscript fragment: for positions i = 0..ndim-1 (ascending, or reversed), optionally filtered by membership in
+    `keep`, the letter (case, index expression) emitted at position i — possibly different for kept and dropped positions"""
+
+    def __init__(self, kept, dropped, filt=None, order="asc"):
+        self.kept, self.dropped, self.filt, self.order = kept, dropped, filt, order  # letters: (case 'l'/'u', idx '<i>') or ('pop', case, order) or None
+
+    def map_case(self, case):
+        f = lambda x: (case, x[1]) if x and x[0] in ("l", "u") else x
+        return _Seq(f(self.kept), f(self.dropped), self.filt, self.order)
+
+
 def rule_einsum_trace(ctx: Ctx) -> None:
-    """num.einsum-trace: the einsum used for the partial trace must repeat the label of every dropped axis in the
-    row and column halves of its input subscript (otherwise einsum *sums* the dropped axes instead of tracing)."""
+    """num.einsum-trace: the einsum subscript of partial_trace, read as a function of the axis position i: in the input, a dropped axis
+    carries one and the same letter in the row half and the column half (so einsum traces it), a kept axis two different letters; the
+    output lists the row letters of the kept axes, then their column letters (the other order returns the transposed = complex
+    conjugated reduced state).  The fragments may be built with joins over comprehensions, string slices, .upper()/.lower(), named
+    intermediate lists, concatenation or f-strings."""
     repo = ctx.repo
     m = repo.module(DMF)
     fn = repo.anchor(DMF, "partial_trace")
@@ -132,40 +147,9 @@ def rule_einsum_trace(ctx: Ctx) -> None:
     for st in ast.walk(fn):
         if isinstance(st, ast.Assign) and len(st.targets) == 1 and isinstance(st.targets[0], ast.Name):
             env.setdefault(st.targets[0].id, st.value)
-    sub = es[0].args[0]
-
-    def expand(e: ast.AST, d: int = 0) -> List[ast.AST]:
-        out: List[ast.AST] = []
-        for p in _concat_parts(e):
-            if isinstance(p, ast.Name) and p.id in env and d < 4:
-                out += expand(env[p.id], d + 1)
-            else:
-                out.append(p)
-        return out
-
-    parts = expand(sub)
-    arrow = [i for i, p in enumerate(parts) if isinstance(p, ast.Constant) and isinstance(p.value, str) and "->" in p.value]
-    if len(arrow) != 1:
-        raise AnalysisError(f"partial_trace: einsum subscript shape not recognised: {short(sub)}")
-    left = parts[: arrow[0]]
     keep = func_params(fn)[1]
 
-    def as_comp(p: ast.AST) -> Optional[ast.AST]:
-        """''.join(<comprehension or a name bound to one>) -> the comprehension"""
-        if isinstance(p, ast.Call) and call_attr(p) == "join" and len(p.args) == 1:
-            a = p.args[0]
-            if isinstance(a, ast.Name) and a.id in env:
-                a = env[a.id]
-            if isinstance(a, (ast.ListComp, ast.GeneratorExp)) and len(a.generators) == 1 and isinstance(a.generators[0].target, ast.Name):
-                return a
-        return None
-
-    comps = [as_comp(p) for p in left]
-    if len(comps) != 2 or any(c is None for c in comps):
-        raise AnalysisError(f"partial_trace: input subscript is not two joined comprehensions: {[short(p) for p in left]}")
-
     def membership(t: ast.AST, v: str) -> Optional[bool]:
-        """True if `t` means `v in keep`, False if `v not in keep`, None if unrecognised"""
         if isinstance(t, ast.UnaryOp) and isinstance(t.op, ast.Not):
             r = membership(t.operand, v)
             return None if r is None else not r
@@ -180,53 +164,123 @@ def rule_einsum_trace(ctx: Ctx) -> None:
         return None
 
     def letter(e: ast.AST, v: str, depth: int = 0):
-        """('L', alphabet, index text relative to v) | ('pop', order) | None"""
+        """letter emitted by element expression e at position v: ('l'|'u', '<i>') / ('pop', case, order) / None"""
+        if depth > 5:
+            return None
+        if isinstance(e, ast.Call) and isinstance(e.func, ast.Attribute) and e.func.attr in ("upper", "lower") and not e.args:
+            inner = letter(e.func.value, v, depth + 1)
+            if inner and inner[0] in ("l", "u"):
+                return ("u" if e.func.attr == "upper" else "l", inner[1])
+            return None
         if isinstance(e, ast.Subscript):
             alpha = _alphabets(e.value)
             if isinstance(e.value, ast.Attribute) and len(alpha) == 1:
-                return ("L", next(iter(alpha)), norm(e.slice).replace(v, "<i>") if norm(e.slice) == v else norm(e.slice))
-            if isinstance(e.value, ast.Name) and e.value.id in env and depth < 3:
-                d = env[e.value.id]
-                if isinstance(d, (ast.ListComp, ast.GeneratorExp)) and len(d.generators) == 1 and not d.generators[0].ifs \
-                        and isinstance(d.generators[0].iter, ast.Call) and call_name(d.generators[0].iter) == "range":
-                    inner = letter(d.elt, d.generators[0].target.id, depth + 1)
-                    if inner and inner[0] == "L" and inner[2] == "<i>" and norm(e.slice) == v:
-                        return inner
+                import re as _re
+                idx = "<i>" if norm(e.slice) == v else _re.sub(rf"\b{v}\b", "<i>", norm(e.slice))
+                return ("l" if "lower" in next(iter(alpha)) else "u", idx)
+            if isinstance(e.value, ast.Name) and norm(e.slice) == v:
+                sq = seq_of(e.value, depth + 1)
+                if sq is not None and sq.filt is None and sq.order == "asc" and sq.kept == sq.dropped:
+                    return sq.kept
             return None
-        if isinstance(e, ast.Call) and call_attr(e) == "pop" and isinstance(e.func.value, ast.Name) and e.func.value.id in env:
-            d = env[e.func.value.id]
-            if isinstance(d, (ast.ListComp, ast.GeneratorExp)) and len(d.generators) == 1:
-                g = d.generators[0]
-                inner = letter(d.elt, g.target.id, depth + 1)
-                drops = len(g.ifs) == 1 and membership(g.ifs[0], g.target.id) is False
-                if inner and inner[0] == "L" and inner[2] == "<i>" and drops:
-                    first = bool(e.args) and norm(e.args[0]) == "0"
-                    return ("pop", inner[1], "same" if first else "reversed")
+        if isinstance(e, ast.Call) and call_attr(e) == "pop" and isinstance(e.func.value, ast.Name):
+            sq = seq_of(e.func.value, depth + 1)
+            if sq is not None and sq.filt == "drop" and sq.dropped and sq.dropped[0] in ("l", "u"):
+                first = bool(e.args) and norm(e.args[0]) == "0"
+                return ("pop", sq.dropped[0], "same" if first else "reversed")
             return None
         return None
 
-    halves = []
-    for c in comps:
-        g = c.generators[0]
-        v = g.target.id
-        if g.ifs or not (isinstance(g.iter, ast.Call) and call_name(g.iter) == "range"):
-            raise AnalysisError("partial_trace: comprehension shape of the einsum subscript not recognised")
-        if isinstance(c.elt, ast.IfExp):
-            pol = membership(c.elt.test, v)
-            if pol is None:
-                raise AnalysisError(f"partial_trace: keep-test `{short(c.elt.test)}` of the einsum subscript not recognised")
-            k, d = (c.elt.body, c.elt.orelse) if pol else (c.elt.orelse, c.elt.body)
-            halves.append((letter(k, v), letter(d, v)))
+    def seq_of(e: ast.AST, depth: int = 0) -> Optional[_Seq]:
+        if depth > 6:
+            return None
+        if isinstance(e, ast.Name) and e.id in env:
+            return seq_of(env[e.id], depth + 1)
+        if isinstance(e, ast.FormattedValue):
+            return seq_of(e.value, depth + 1)
+        if isinstance(e, ast.Call) and call_attr(e) == "join" and len(e.args) == 1:
+            return seq_of(e.args[0], depth + 1)
+        if isinstance(e, ast.Call) and isinstance(e.func, ast.Attribute) and e.func.attr in ("upper", "lower") and not e.args:
+            sq = seq_of(e.func.value, depth + 1)
+            return sq.map_case("u" if e.func.attr == "upper" else "l") if sq else None
+        if isinstance(e, ast.Subscript) and isinstance(e.slice, ast.Slice) and isinstance(e.value, ast.Attribute) and len(_alphabets(e.value)) == 1 \
+                and e.slice.lower is None and e.slice.step is None:
+            c = "l" if "lower" in next(iter(_alphabets(e.value))) else "u"
+            return _Seq((c, "<i>"), (c, "<i>"))
+        if isinstance(e, ast.Subscript) and isinstance(e.slice, ast.Slice) and e.slice.lower is None and e.slice.upper is None \
+                and e.slice.step is not None and norm(e.slice.step) == "-1":
+            sq = seq_of(e.value, depth + 1)
+            return _Seq(sq.kept, sq.dropped, sq.filt, "desc" if sq.order == "asc" else "asc") if sq else None
+        if isinstance(e, (ast.ListComp, ast.GeneratorExp)) and len(e.generators) == 1 and isinstance(e.generators[0].target, ast.Name):
+            g = e.generators[0]
+            v = g.target.id
+            order = "asc"
+            it = g.iter
+            if isinstance(it, ast.Call) and call_name(it) == "reversed" and it.args:
+                it, order = it.args[0], "desc"
+            if not (isinstance(it, ast.Call) and call_name(it) == "range" and len(it.args) == 1):
+                return None
+            filt = None
+            if g.ifs:
+                if len(g.ifs) != 1:
+                    return None
+                pol = membership(g.ifs[0], v)
+                if pol is None:
+                    return None
+                filt = "keep" if pol else "drop"
+            if isinstance(e.elt, ast.IfExp):
+                pol = membership(e.elt.test, v)
+                if pol is None:
+                    return None
+                k, d = (e.elt.body, e.elt.orelse) if pol else (e.elt.orelse, e.elt.body)
+                return _Seq(letter(k, v), letter(d, v), filt, order)
+            l = letter(e.elt, v)
+            return _Seq(l, l, filt, order)
+        return None
+
+    def parts_of(e: ast.AST, d: int = 0) -> List[ast.AST]:
+        if isinstance(e, ast.BinOp) and isinstance(e.op, ast.Add):
+            return parts_of(e.left, d) + parts_of(e.right, d)
+        if isinstance(e, ast.JoinedStr):
+            out = []
+            for v in e.values:
+                out += parts_of(v, d)
+            return out
+        if isinstance(e, ast.Name) and e.id in env and d < 4 and isinstance(env[e.id], (ast.BinOp, ast.JoinedStr)):
+            return parts_of(env[e.id], d + 1)
+        return [e]
+
+    parts = parts_of(es[0].args[0])
+    flat: List[object] = []
+    for p_ in parts:
+        if isinstance(p_, ast.Constant) and isinstance(p_.value, str):
+            txt = p_.value
+            if "->" in txt:
+                a_, b_ = txt.split("->", 1)
+                if a_.strip() or b_.strip():
+                    raise AnalysisError(f"partial_trace: literal letters `{txt}` in the einsum subscript are not analysed")
+                flat.append("->")
+            elif txt.strip():
+                raise AnalysisError(f"partial_trace: literal letters `{txt}` in the einsum subscript are not analysed")
         else:
-            l = letter(c.elt, v)
-            halves.append((l, l))
-    if any(x is None for h in halves for x in h):
-        raise AnalysisError("partial_trace: a letter expression of the einsum subscript is not recognised")
-    (rk, rd), (ck, cd) = halves
-    if rk == rd and ck == cd and rk[0] == "L" and ck[0] == "L" and rk[1] != ck[1]:
+            sq = seq_of(p_)
+            if sq is None or sq.kept is None or sq.dropped is None:
+                raise AnalysisError(f"partial_trace: einsum subscript fragment `{short(p_, 60)}` not recognised")
+            flat.append(sq)
+    if flat.count("->") != 1:
+        raise AnalysisError(f"partial_trace: einsum subscript shape not recognised: {short(es[0].args[0])}")
+    k = flat.index("->")
+    left, right = flat[:k], flat[k + 1:]
+    if len(left) != 2 or any(not isinstance(x, _Seq) for x in left):
+        raise AnalysisError("partial_trace: the einsum input subscript is not a row half followed by a column half")
+    row, col = left
+    if row.filt or col.filt or row.order != "asc" or col.order != "asc":
+        raise AnalysisError("partial_trace: a filtered / reversed input half of the einsum subscript is not analysed")
+    rk, rd, ck, cd = row.kept, row.dropped, col.kept, col.dropped
+    if rk == rd and ck == cd and rk[0] in ("l", "u") and ck[0] in ("l", "u") and rk[0] != ck[0]:
         ctx.fail("num.einsum-trace", m, es[0],
                  "the einsum input subscript is the concatenation of two unconditional comprehensions over disjoint alphabets "
-                 f"({[rk[1]]} / {[ck[1]]}), so no label is repeated and einsum can only *sum* the "
+                 "(lowercase / uppercase), so no label is repeated and einsum can only *sum* the "
                  "dropped axes over all row/column pairs, never trace them (|++> keep one qubit gives the all-ones matrix)",
                  func="partial_trace", construct="partial_trace: einsum input subscript has no repeated label")
         return
@@ -236,19 +290,35 @@ def rule_einsum_trace(ctx: Ctx) -> None:
             problems.append(f"the {nm} letters of the dropped axes are taken with .pop() from the end of a list built in ascending order, so with k dropped "
                             f"axes the j-th one's {nm} index is contracted with the (k+1-j)-th one's other index (a transposition of the traced part, "
                             f"not its trace) as soon as two or more qubits are traced out")
-    norm_l = lambda x: ("L", x[1], "<i>") if x[0] == "pop" else x
+    norm_l = lambda x: (x[1], "<i>") if x[0] == "pop" else x
     if not problems:
-        if norm_l(rd) != norm_l(cd) or norm_l(rd)[2] != "<i>":
+        if norm_l(rd) != norm_l(cd):
             problems.append(f"a dropped axis gets row label {rd} and column label {cd}: the two are not the same letter, so the axis is not traced")
-        if rk[0] != "L" or ck[0] != "L" or rk[1] == ck[1] or rk[2] != "<i>" or ck[2] != "<i>":
-            problems.append(f"a kept axis gets row label {rk} and column label {ck}: they must be distinct letters indexed by the axis")
-        if rk[0] == "L" and ck[0] == "L" and norm_l(rd)[1] not in (rk[1], ck[1]):
-            pass  # a third alphabet for traced axes is fine
+        if rk == ck or rk[0] not in ("l", "u") or ck[0] not in ("l", "u"):
+            problems.append(f"a kept axis gets row label {rk} and column label {ck}: they must be two different letters indexed by the axis")
     if problems:
         ctx.fail("num.einsum-trace", m, es[0], "partial_trace: " + "; ".join(problems), func="partial_trace",
                  construct="partial_trace: einsum labels of dropped axes do not pair row i with column i")
+        return
+    ctx.ok("num.einsum-trace", m, es[0], what="every dropped axis i has one label in both halves, every kept axis two")
+    # output: row letters of the kept axes, then their column letters, both in ascending axis order
+    if len(right) == 2 and all(isinstance(x, _Seq) for x in right):
+        o1, o2 = right
+        fine = o1.filt == "keep" and o2.filt == "keep" and o1.order == "asc" and o2.order == "asc"
+        if fine and o1.kept == rk and o2.kept == ck:
+            ctx.ok("num.einsum-trace", m, es[0], what="output = kept row letters, then kept column letters")
+        elif fine and o1.kept == ck and o2.kept == rk:
+            ctx.fail("num.einsum-trace", m, es[0],
+                     "partial_trace writes the output subscript as the kept *column* letters followed by the kept *row* letters: einsum then returns "
+                     "the transpose of the reduced state, i.e. its complex conjugate — wrong for every state whose reduced matrix has imaginary parts "
+                     "(|y+> comes back as |y->)", func="partial_trace", construct="partial_trace: einsum output subscript transposed")
+        else:
+            ctx.fail("num.einsum-trace", m, es[0],
+                     f"partial_trace's einsum output subscript is not the kept row letters followed by the kept column letters in axis order "
+                     f"(filters {o1.filt}/{o2.filt}, order {o1.order}/{o2.order}, letters {o1.kept}/{o2.kept})", func="partial_trace",
+                     construct="partial_trace: einsum output subscript")
     else:
-        ctx.ok("num.einsum-trace", m, es[0], what="every dropped axis i has one label in both halves, every kept axis two")
+        raise AnalysisError("partial_trace: einsum output subscript is not two fragments (kept rows, kept columns)")
 
 
 # --------------------------------------------------------------------------- G3 raise Warning on the value path
